@@ -20,9 +20,8 @@ META = {
                   "(any nesting depth, any number of definitions/requires/pragmas/failures): first-match lookup in "
                   "the documented order, scope exit restores the local-state stack on normal and exceptional exit, "
                   "the mutable stack machine equals the lexical semantics, require brings exactly the listed / "
-                  "exported names, warning iff core name and no enclosing pragma disabled it. The prefixed shapes "
-                  "are proved only for fully exported modules (_partial) and refuted in general (_refuted witness = "
-                  "known finding). The model is tied to the source by three regenerated tables and by executing "
+                  "exported names, a prefixed require brings every macro of the module under <prefix>.<name>, "
+                  "warning iff core name and no enclosing pragma disabled it. The model is tied to the source by three regenerated tables and by executing "
                   "generated histories on hy itself.",
     "level_note": "Trusted: Coq kernel; translator/macro_lookup.py; the hand-written parts of the model "
                   "(compile_macro_def's local/global choice, hy.macros.require's loop, warn_on_core_shadow) are tied "
@@ -33,7 +32,8 @@ META = {
 TRUSTED = [
     "Coq 8.16.1 kernel (coqc, full .vo); vm_compute for the witness and the example; no native_compute",
     "axioms: none (Print Assumptions: Closed under the global context for every C35 theorem)",
-    "translator/macro_lookup.py: lookup chain of macroexpand, assignment_shape table, local_state/new_local_state/"
+    "translator/macro_lookup.py: lookup chain of macroexpand, assignment_shape table, compile_require's prefixed "
+    "override, local_state/new_local_state/"
     "is_in_local_state/get_local_option shapes (fail-closed, regenerated on every run)",
     "hand-written model MacroNS/LookupModel.v, RequireModel.v, LookupMachine.v of compile_macro_def, compile_pragma, "
     "warn_on_core_shadow, hy.macros.require, compile_require: tied by differential execution (vm_compute of the "
@@ -640,19 +640,23 @@ def relative_requires(chk, root):
                      "PYTHONPATH=%s:<root> python -c 'import hy, %s'" % (modname, form, vlib.REPO, modname))
 
 
-def m_relative_multi(rec, params):
-    i = rec["input"]
-    wrong = str(rec["observed"]).startswith("HyRequireError") or rec["observed"] in REL_LEAVES
-    return rec["key"] == "relative-module-name" and wrong and (i.get("dots", 0) >= 2 or i.get("segments", 0) >= 2)
-
-
-def m_prefixed_nonexported(rec, params):
-    c = rec["input"].get("cause") or {}
-    return rec["key"] == "require-prefixed-nonexported" and c.get("shape") in ("bare", "as") and c.get("exported") is False
-
-
 def m_local_package(rec, params):
     return rec["key"] == "local-package-require-runtime-error" and rec["observed"] == "HyRequireError"
+
+
+# former failing inputs (fixed by repo commits 2d979da and 9d3eea4 resp. still open), run first on every run
+CORPUS = [
+    {"mode": "A", "extra": [], "local_pkg": False, "forms": [
+        ("req", "hvs_a", ("as", "B")), ("req", "hvs_e", ("bare",)), ("req", "hvs_b", ("bare",)),
+        ("call", 1, "B._pa"), ("call", 2, "B.ma"), ("call", 3, "hvs_e.mb"), ("call", 4, "hvs_e.md"),
+        ("call", 5, "hvs_b.ma"), ("call", 6, "hvs_b._pc"), ("call", 7, "_pa"), ("call", 8, "ma")]},
+    {"mode": "B", "extra": [], "local_pkg": False, "forms": [
+        ("scope", "defn", [("req", "hvs_b", ("as", "A")), ("call", 1, "A.ma"), ("call", 2, "A.mc"), ("call", 3, "A._pc")]),
+        ("req", "hvs_b", ("star",)), ("call", 4, "ma"), ("call", 5, "mc"), ("call", 6, "A.ma"),
+        ("req", "hvs_a", ("bare",)), ("call", 7, "hvs_a._pa"), ("call", 8, "hvs_a.when")]},
+    {"mode": "B", "extra": [], "local_pkg": True, "forms": [
+        ("scope", "defn", [("req", "hvs_pkg", ("list", [("sub1", None)])), ("call", 1, "sub1.ma")]), ("call", 2, "sub1.ma")]},
+]
 
 
 def run(chk):
@@ -661,14 +665,13 @@ def run(chk):
         "names in the model are mangled names; the harness spells them with hyphens or underscores at random",
         "a macro scope is what docs/macros.rst says: function, class or comprehension (fn, defn, defclass, lfor)",
         "the documented set of (require m) and (require m :as A) is read from docs/api.rst: every macro of m; "
-        "_hy_export_macros (or the no-leading-underscore default) governs (require m *) only",
+        "_hy_export_macros (or the no-leading-underscore default) governs (require m *) only (the code agrees since 2d979da)",
+        "relative module names in require resolve like Python's relative imports (the code agrees since 9d3eea4)",
         "after a require that raises HyRequireError the names it listed are not judged (their state is undocumented)",
         "observation: each call site evaluates to a string naming the macro definition it expanded with; "
         "core macros are recognised by their value; a call that is not a macro call evaluates to a marker",
     ]
-    chk.matchers["prefixed-require-honours-exports"] = m_prefixed_nonexported
     chk.matchers["local-package-require-runtime-error"] = m_local_package
-    chk.matchers["relative-require-multi-dot-or-segment"] = m_relative_multi
     chk.prove("Props/C35.v", ["Props/C35.vo", "MacroNS/LookupEncode.vo"], [macro_lookup.translate])
     thorough = chk.tier == "thorough"
     n_hist = 6000 if thorough else 500
@@ -693,10 +696,14 @@ def run(chk):
         real = Real(hy)
         hists, exprs, obs = [], [], []
         probes = ["ma", "mb", "mc", "m_d", "when", "cond", "A.ma", "hvs_a.ma", "_pa"]
-        for k in range(n_hist):
-            mode = "A" if chk.rng.random() < 0.45 else "B"
-            g = Gen(chk.rng, mode, 4 if thorough else 3)
-            h = g.history()
+        for k in range(n_hist + len(CORPUS)):
+            if k < len(CORPUS):
+                h = dict(CORPUS[k], forms=list(CORPUS[k]["forms"]))
+                chk.count("corpus")
+            else:
+                mode = "A" if chk.rng.random() < 0.45 else "B"
+                g = Gen(chk.rng, mode, 4 if thorough else 3)
+                h = g.history()
             rd = Render(chk.rng)
             texts = [rd.item(f) for f in h["forms"]]
             h["texts"] = texts
